@@ -146,13 +146,19 @@ def node_of_stmt(cfg, stmt):
     return None
 
 
-def controlling_tests(view, n):
-    """list of (normalised test text, truth label) that control node n"""
+def controlling_tests(view, n, skip_reject_guards=False):
+    """list of (normalised test text, truth label) that control node n.
+    skip_reject_guards: leave out early-rejection guards (branches whose other
+    outcome can never reach the normal exit, i.e. `if bad: raise`)"""
+    import networkx as nx
     out = []
     for b, lab in view.controlling_branches(n):
-        if b.kind == "branch":
-            out.append((norm(b.ast.test), lab))
-        elif b.kind == "loop" and isinstance(b.ast, ast.While):
+        if b.kind == "branch" or (b.kind == "loop" and isinstance(b.ast, ast.While)):
+            if skip_reject_guards:
+                other = [j for j in view.g.successors(b.id) if lab not in view.g[b.id][j]["labels"]]
+                ex = view.cfg.exit.id
+                if other and not any(j == ex or ex in nx.descendants(view.g, j) for j in other):
+                    continue
             out.append((norm(b.ast.test), lab))
     return out
 
